@@ -898,3 +898,110 @@ def r13_constraints_filtered_for_overflow(ctx):
 
 
 RULES += [r13_constraints_filtered_for_overflow]
+
+
+def r14_wrapped_inclusion_exact(ctx):
+    ctx.rule("C13.r14", "wrapped_interval::operator<= is interpreted over ALL pairs of circular intervals of width 3 (its decision tree over "
+             "is_top / is_bottom / end-point equality / at(.) membership is evaluated on the finite model): whenever it answers yes the "
+             "left interval is a subset of the right one. On a circle `both end points of s lie in t` is not enough - s and t can "
+             "overlap at both ends and cover the circle together; join and the fixpoint test are built on this operator", floor=1)
+    WI2 = "include/crab/domains/wrapped_interval_impl.hpp"
+    fs = [f for f in ctx.db.fns(WI2, name="operator<=") if (f.get("cpk") or "").endswith("wrapped_interval") and f.get("body")]
+    if not ctx.need(fs, "wrapped_interval::operator<="):
+        return
+    fn = fs[0]
+    body = fn["body"]
+    N = 8
+
+    class Stuck(Exception):
+        pass
+
+    def members(iv):
+        s, e = iv
+        return {(s + k) % N for k in range(((e - s) % N) + 1)}
+
+    def who(o):
+        o = strip(o)
+        if o is None or is_this(o):
+            return "this"
+        if is_param(o, fn, 0):
+            return "x"
+        raise Stuck(src(o)[:30])
+
+    def val(e, env):
+        e = strip(e)
+        while isinstance(e, dict) and e.get("k") in ("ctor", "construct") and len(e.get("a", [])) == 1:
+            e = strip(e["a"][0])
+        if isinstance(e, dict) and e.get("k") == "mem" and e.get("n") in ("m_start", "m_end"):
+            iv = env[who(e.get("b"))]
+            return iv[0] if e["n"] == "m_start" else iv[1]
+        raise Stuck(src(e)[:30])
+
+    def ev(e, env):
+        e = strip(e)
+        if not isinstance(e, dict):
+            raise Stuck("?")
+        k = e.get("k")
+        if k == "lit" and e.get("v") in ("true", "false"):
+            return e["v"] == "true"
+        if k == "un" and e.get("op") == "!":
+            return not ev(e.get("e"), env)
+        if k == "bin" and e.get("op") in ("&&", "||"):
+            a = ev(e.get("L"), env)
+            if e["op"] == "&&":
+                return a and ev(e.get("R"), env)
+            return a or ev(e.get("R"), env)
+        if k == "call":
+            nm = (callee(e) or {}).get("name")
+            if nm in ("is_top", "is_bottom"):
+                who(e.get("o"))
+                return False                     # the model contains proper intervals only
+            if nm == "at" and len(e.get("a", [])) == 1:
+                return val(e["a"][0], env) in members(env[who(e.get("o"))])
+            if e.get("op") in ("==", "!=") and "o" in e and e.get("a"):
+                r = val(e["o"], env) == val(e["a"][0], env)
+                return r if e["op"] == "==" else not r
+        raise Stuck(src(e)[:40])
+
+    def run(s, env):
+        s = strip(s) if isinstance(s, dict) else s
+        k = s.get("k")
+        if k == "seq":
+            for y in s.get("b", []):
+                r = run(y, env)
+                if r is not None:
+                    return r
+            return None
+        if k == "if":
+            if ev(s.get("c"), env):
+                return run(s.get("t"), env)
+            return run(s["e"], env) if "e" in s else None
+        if k == "ret":
+            return ev(s.get("v"), env)
+        raise Stuck(k)
+    wrong = None
+    n = 0
+    try:
+        for s1 in range(N):
+            for e1 in range(N):
+                for s2 in range(N):
+                    for e2 in range(N):
+                        n += 1
+                        ans = run(body, {"this": (s1, e1), "x": (s2, e2)})
+                        if ans is None:
+                            raise Stuck("no return")
+                        if ans and not members((s1, e1)) <= members((s2, e2)):
+                            wrong = wrong or ((s1, e1), (s2, e2))
+    except Stuck as ex:
+        ctx.undecided("wrapped_interval::operator<=: cannot interpret `%s`" % ex, fn, body)
+        return
+    if wrong:
+        (a, b), (c, d) = wrong
+        ctx.bad("wrapped_interval::operator<= answers yes for [%d,%d] <= [%d,%d] at width 3 although the left interval is not a subset of the "
+                "right one (%d of 4096 pairs interpreted): the join `if (*this <= x) return x` then returns one operand instead of top and "
+                "the fixpoint test declares a loop stable too early" % (a, b, c, d, n), fn, body, sig="wrapped-leq-unsound")
+    else:
+        ctx.ok("every yes among the 4096 pairs of width-3 intervals is an inclusion", fn, body)
+
+
+RULES += [r14_wrapped_inclusion_exact]
